@@ -10,6 +10,7 @@ The callback is checked on the implementation only.
 -/
 import MysticVerif.Proofs.Solver
 import MysticVerif.Proofs.NelderMead
+import MysticVerif.Props.C05
 
 namespace MysticVerif.C04
 open MysticVerif.Solver
@@ -89,6 +90,54 @@ theorem nm_history [Add R] [Sub R] [Mul R] [Div R] [LinearOrder E] (o : Obj (Pt 
     (((NM.update o c st s).1.stepLog).map Prod.snd).Pairwise (· ≥ ·) ∧
     (NM.update o c st s).1.stepLog.getLast? = (NM.update o c st s).1.simplex.head? :=
   ⟨(NM.update_inv h c st hst s hs).hist, (NM.update_inv h c st hst s hs).lastIsBest⟩
+
+/-! ### the evaluation counter over the solver's whole life (control model `Ctl`) -/
+
+/-- **`Step` changes the evaluation counter exactly by the evaluations its iteration made**, and not at all when
+it stops before stepping -/
+theorem step_evals (c : Ctl) (tp tq : Bool) (d : Delta) :
+    (c.step tp tq d).1.evals = c.evals + (if (c.step tp tq d).2.2 = true then d.dEvals else 0) := by
+  rcases C05.step_cases c tp tq d with ⟨m, _, hs⟩ | ⟨_, m, _, hs⟩ | ⟨_, _, hs⟩
+  · rw [hs]; simp
+  · rw [hs]
+    have h1 : (c.after d).finalize.evals = (c.after d).evals := by unfold Ctl.finalize; split <;> rfl
+    have h2 : (c.after d).evals = c.evals + d.dEvals := by simp [Ctl.after]
+    simp only [h1, h2, if_true]
+  · rw [hs]; simp [Ctl.after]
+
+/-- **reconfiguration and restart keep the counter**: `Finalize` (reached through every `Set*` that re-decorates the
+objective) and `SetEvaluationLimits` leave the evaluation counter untouched (the F1 repair) -/
+theorem finalize_setLimits_keep_evals (c : Ctl) (g e : Option Nat) (new : Bool) :
+    c.finalize.evals = c.evals ∧ (c.setLimits g e new).evals = c.evals := by
+  constructor
+  · unfold Ctl.finalize; split <;> rfl
+  · unfold Ctl.setLimits; split <;> rfl
+
+/-- over any sequence of `Step`s the counter is the initial count plus the evaluations of the iterations that ran -/
+theorem evals_eq_sum_of_ran :
+    ∀ (steps : List (Bool × Bool × Delta)) (c : Ctl),
+      (steps.foldl (fun (acc : Ctl × Nat) s =>
+          ((acc.1.step s.1 s.2.1 s.2.2).1,
+           acc.2 + (if (acc.1.step s.1 s.2.1 s.2.2).2.2 = true then s.2.2.dEvals else 0))) (c, c.evals)).1.evals
+      = (steps.foldl (fun (acc : Ctl × Nat) s =>
+          ((acc.1.step s.1 s.2.1 s.2.2).1,
+           acc.2 + (if (acc.1.step s.1 s.2.1 s.2.2).2.2 = true then s.2.2.dEvals else 0))) (c, c.evals)).2 := by
+  intro steps
+  suffices h : ∀ (c : Ctl) (n : Nat), c.evals = n →
+      (steps.foldl (fun (acc : Ctl × Nat) s =>
+          ((acc.1.step s.1 s.2.1 s.2.2).1,
+           acc.2 + (if (acc.1.step s.1 s.2.1 s.2.2).2.2 = true then s.2.2.dEvals else 0))) (c, n)).1.evals
+      = (steps.foldl (fun (acc : Ctl × Nat) s =>
+          ((acc.1.step s.1 s.2.1 s.2.2).1,
+           acc.2 + (if (acc.1.step s.1 s.2.1 s.2.2).2.2 = true then s.2.2.dEvals else 0))) (c, n)).2 from
+    fun c => h c c.evals rfl
+  induction steps with
+  | nil => intro c n h; exact h
+  | cons s ss ih =>
+    intro c n h
+    simp only [List.foldl_cons]
+    apply ih
+    rw [step_evals, h]
 
 /-- non-vacuity: the history of a concrete run really decreases -/
 def C04ex : Obj Int Int :=
